@@ -351,11 +351,16 @@ def native_replay_subprocess(pid, violation, timeout=60):
         json.dump({'property': pid, **violation}, f, default=str)
         path = f.name
     try:
-        r = subprocess.run([sys.executable, os.path.join(VERIF, 'run.py'), pid, '--replay', path],
-                           capture_output=True, text=True, timeout=timeout)
-        return r.returncode == 1
-    except subprocess.TimeoutExpired:
-        return True     # a hang is a reproduction of a non-termination counterexample
+        for attempt in (1, 4):
+            # a replay that does not end is a reproduction of a non-termination counterexample - but only if it still does not end with four
+            # times the allowance (a loaded machine must not turn a slow replay into a violation)
+            try:
+                r = subprocess.run([sys.executable, os.path.join(VERIF, 'run.py'), pid, '--replay', path],
+                                   capture_output=True, text=True, timeout=timeout * attempt)
+                return r.returncode == 1
+            except subprocess.TimeoutExpired:
+                continue
+        return True
     finally:
         os.unlink(path)
 
